@@ -308,3 +308,92 @@ func VerifC18_static_table() {
 	chk(58, "user-agent", "")
 	chk(61, "www-authenticate", "")
 }
+
+// Fragment independence with a string-length limit (SetMaxStringLength): a literal field with a NEW
+// name carries two strings, each of which may be as long as the limit; the decoder buffers an
+// incomplete representation between Write calls and has a last-resort cap on that buffer. A legal
+// block must decode to the same fields wherever it is cut, and strings above the limit must be
+// refused wherever it is cut. Lengths sit around the limit (0, L-1, L, L+1), first and last byte of
+// each string are symbolic, the cut is every position of the block.
+func c18FragMax(Ls []int) {
+	L := Ls[vRange("maxStringLength", 0, len(Ls)-1)]
+	lens := []int{0, L - 1, L, L + 1}
+	n1, n2 := lens[vRange("nameLen", 0, 3)], lens[vRange("valueLen", 0, 3)]
+	kind := []byte{0x00, 0x40}[vRange("literalKind", 0, 1)] // without indexing / with incremental indexing
+	mk := func(tag string, n int) []byte {
+		s := make([]byte, n)
+		for i := range s {
+			s[i] = 'x'
+		}
+		if n > 0 {
+			s[0] = vU8(tag + ".first")
+		}
+		if n > 1 {
+			s[n-1] = vU8(tag + ".last")
+		}
+		return s
+	}
+	name, value := mk("name", n1), mk("value", n2)
+	p := []byte{kind, byte(n1)}
+	p = append(p, name...)
+	p = append(p, byte(n2))
+	p = append(p, value...)
+	p = append(p, 0x82) // :method GET
+	run := func(cut int) (fields []HeaderField, class int, panicked bool) {
+		d := NewDecoder(4096, func(f HeaderField) { fields = append(fields, f) })
+		d.SetMaxStringLength(L)
+		var w1, w2, c2 error
+		panicked = vCatch(func() {
+			if cut >= 0 {
+				_, w1 = d.Write(p[:cut])
+			}
+			if w1 == nil {
+				from := 0
+				if cut >= 0 {
+					from = cut
+				}
+				_, w2 = d.Write(p[from:])
+				if w2 == nil {
+					c2 = d.Close()
+				}
+			}
+		})
+		class = c18OK
+		if w1 != nil || w2 != nil {
+			class = c18Error
+		} else if c2 != nil {
+			class = c18NeedMore
+		}
+		return
+	}
+	wf, wc, wp := run(-1)
+	if wp {
+		vFail("decoder-no-panic")
+		return
+	}
+	if n1 <= L && n2 <= L {
+		vReach("strings-within-limit")
+		vAssert(wc == c18OK && len(wf) == 2, "legal-block-within-string-limit-decodes")
+		if wc == c18OK && len(wf) == 2 {
+			vAssert(vAnd(wf[0].Name == string(name), wf[0].Value == string(value)), "literal-field-as-sent")
+			vAssert(wf[1].Name == ":method" && wf[1].Value == "GET", "field-after-long-literal-as-sent")
+		}
+	} else {
+		vReach("string-above-limit")
+		vAssert(wc == c18Error, "string-above-limit-refused")
+	}
+	cut := vRange("cut", 0, len(p))
+	ff, fc, fp := run(cut)
+	if fp {
+		vFail("decoder-no-panic")
+		return
+	}
+	vReach("fragmented-long-literal")
+	vAssert(fc == wc, "fragmentation-same-result-class")
+	if wc == c18OK {
+		vAssert(c18SameFields(ff, wf), "fragmentation-same-fields")
+	}
+}
+
+func VerifC18_fragments_maxstrlen_quick()    { c18FragMax([]int{14, 40}) }
+func VerifC18_fragments_maxstrlen_thorough() { c18FragMax([]int{1, 13, 14, 15, 16, 40, 64, 100}) }
